@@ -95,7 +95,16 @@ def ast_obligations(chk):
     # dependency list sorted by name
     init = repo.find_function("norminette/rules/__init__.py:Rules.__init__")
     src = ast.unparse(init.node)
-    ok_p = "sorted(Primary.__subclasses__()" in src and "attrgetter('priority')" in src
+    def sorted_with_key(node, word):
+        """a sorted(...) call (or .sort) whose key mentions `word`"""
+        for c in ast.walk(node):
+            if isinstance(c, ast.Call) and (isinstance(c.func, ast.Name) and c.func.id == "sorted"
+                                            or isinstance(c.func, ast.Attribute) and c.func.attr == "sort"):
+                if any(k.arg == "key" and word in ast.unparse(k.value) for k in c.keywords):
+                    return True
+        return False
+    ok_p = any(isinstance(a, ast.Assign) and "primaries" in ast.unparse(a.targets[0]) and sorted_with_key(a.value, "priority")
+               for a in ast.walk(init.node))
     chk.frame("rules.primaries_sorted_by_priority", ok_p, {"source": [l for l in src.split("\n") if "primaries" in l]},
               what="Rules.__init__ no longer sorts the primaries by priority")
     rinit = repo.find_function("norminette/registry.py:Registry.__init__")
@@ -104,7 +113,11 @@ def ast_obligations(chk):
     for lp in loops:
         if "dependencies.items()" in ast.unparse(lp.iter):
             body = ast.unparse(lp)
-            ok_d = "sorted(" in body and "attrgetter('__name__')" in body and "self.dependencies[name] =" in body
+            # any key that ends in the class name is a total order on the classes (names are unique),
+            # whatever comes before it
+            ok_d = any(isinstance(a, ast.Assign) and isinstance(a.targets[0], ast.Subscript)
+                       and ast.unparse(a.targets[0].value) == "self.dependencies" and sorted_with_key(a.value, "__name__")
+                       for a in ast.walk(lp))
     chk.frame("registry.every_dependency_list_sorted_by_name", ok_d, {},
               what="Registry.__init__ no longer sorts every dependency list by class name")
     # mutable default arguments are only read
@@ -176,10 +189,17 @@ def run(tier, seed, replay):
     t0 = time.time()
     writes = scan.global_writes(chk.repo) + scan.long_lived_writes(chk.repo)
     keys = {(w["where"], w["what"]) for w in writes}
-    unjust = sorted(k for k in keys if k not in JUSTIFIED_WRITES)
+    # an assignment to a class attribute inside __init_subclass__ runs once per class, when the
+    # class statement is executed (import time, before any file is looked at): whatever its name
+    just = dict(JUSTIFIED_WRITES)
+    for k in keys:
+        if k not in just and k[0].endswith(".__init_subclass__") and k[1].startswith("class attribute cls.") \
+                and k[1].endswith(" assigned"):
+            just[k] = "class creation (import time)"
+    unjust = sorted(k for k in keys if k not in just)
     for k in sorted(keys):
-        if k in JUSTIFIED_WRITES:
-            chk.frame(f"frame.write[{k[0]} {k[1]}]", True, {"justification": JUSTIFIED_WRITES[k]})
+        if k in just:
+            chk.frame(f"frame.write[{k[0]} {k[1]}]", True, {"justification": just[k]})
     for k in unjust:
         rp = replay_hist(None, None)
         chk.frame(f"frame.write[{k[0]} {k[1]}]", False, {"where": k[0], "what": k[1]},
